@@ -7,6 +7,8 @@ import (
 	"os/exec"
 	"regexp"
 	"strings"
+	"syscall"
+	"time"
 )
 
 var libFrame = regexp.MustCompile(`github\.com/Workiva/frugal/lib/go\.([^\s(]*\([^)]*\)\.[A-Za-z0-9_]+|[A-Za-z0-9_.]+)\(`)
@@ -29,7 +31,44 @@ func Supervise(prop, tier, level, rule string) {
 	cmd.Stdout = os.Stdout
 	var stderr bytes.Buffer
 	cmd.Stderr = &stderr
-	err := cmd.Run()
+	// generous wall-clock watchdog around the whole monitor: a monitor that is
+	// still running after it is stopped with SIGQUIT (goroutine dump on stderr)
+	// and the run ends inconclusive - never a pass, never a violation
+	limit := 25 * time.Minute
+	if tier == "thorough" {
+		limit = 60 * time.Minute
+	}
+	if v, perr := time.ParseDuration(os.Getenv("VERIF_SUPERVISE_MAX")); perr == nil && v > 0 {
+		limit = v
+	}
+	err := cmd.Start()
+	watchdogFired := false
+	if err == nil {
+		waited := make(chan error, 1)
+		go func() { waited <- cmd.Wait() }()
+		select {
+		case err = <-waited:
+		case <-time.After(limit):
+			watchdogFired = true
+			cmd.Process.Signal(syscall.SIGQUIT)
+			select {
+			case err = <-waited:
+			case <-time.After(20 * time.Second):
+				cmd.Process.Kill()
+				err = <-waited
+			}
+		}
+	}
+	if watchdogFired {
+		run := New(prop, tier, level)
+		run.Rule(rule)
+		text := stderr.String()
+		if len(text) > 4000 {
+			text = text[:4000]
+		}
+		run.Inconclusive(fmt.Sprintf("the monitor process was still running after %s (wall-clock watchdog, no verdict); goroutine dump begins: %s", limit, text))
+		os.Exit(run.Finish())
+	}
 	code := 0
 	if ee, ok := err.(*exec.ExitError); ok {
 		code = ee.ExitCode()
